@@ -19,7 +19,9 @@ PROPERTY = "C01"
 LEVEL = "model_checking"
 
 OCC = (1.0, 0.5, 0.25, 0.0)      # 0.0: a dummy atom / a disorder component refined to zero is still a site with all its images
-SLABS = (((-1, -1, -1), (1, 1, 1)), ((0, 0, 0), (2, 1, 0)), ((-2, 0, 1), (-1, 0, 3)))
+SLABS = (((-1, -1, -1), (1, 1, 1)), ((0, 0, 0), (2, 1, 0)), ((-2, 0, 1), (-1, 0, 3)),
+         # degenerate slabs: exactly one cell (the origin cell; another cell), one cell thick along two axes
+         ((0, 0, 0), (0, 0, 0)), ((1, 2, -1), (1, 2, -1)), ((-3, 0, 0), (-3, 0, 2)))
 
 
 def grid_points(N, mode):
@@ -281,7 +283,7 @@ def plan_for_setting(row, tier, seed):
         for bi, batch in enumerate(chunked(reps, 400)):
             # deviation-bounded secondary axes: default cell / default no slab; deviate on the first batches
             cell_i = 1 if (bi % 5 == 1) else 0
-            slab_i = (bi % 7) if (bi % 7) < 3 and bi < 14 else None
+            slab_i = (bi % 7) if (bi % 7) < 6 and bi < 14 else None
             cases.append({"number": number, "choice": choice, "D": N, "sites": batch, "cell": cells[cell_i],
                           "slab": SLABS[slab_i] if slab_i is not None else None, "z0": 1 + (bi * 17) % 103,
                           "variant": variant})
@@ -289,12 +291,12 @@ def plan_for_setting(row, tier, seed):
     reps0 = [o[0] for o in orbs][:120]
     shifts = [(-1, 0, 0), (0, 2, -1), (-3, 1, 2), (4, -2, 0), (-6, -6, 5), (-7, 9, -12), (11, -8, 0)]
     shifted = [tuple(p[k] + shifts[i % len(shifts)][k] * N for k in range(3)) for i, p in enumerate(reps0)]
-    cases.append({"number": number, "choice": choice, "D": N, "sites": shifted, "cell": cells[0], "slab": None, "z0": 3, "variant": "lattice-shifted"})
+    cases.append({"number": number, "choice": choice, "D": N, "sites": shifted, "cell": cells[0], "slab": SLABS[4], "z0": 3, "variant": "lattice-shifted"})
     # containers / dtypes of the positions array: integer-typed (sites with integer coordinates), nested lists, float32
     cases.append({"number": number, "choice": choice, "D": N, "sites": [(N, -N, 2 * N)], "cell": cells[0], "slab": None, "z0": 29,
                   "variant": "int-array", "container": "int"})
-    cases.append({"number": number, "choice": choice, "D": N, "sites": reps0[:7], "cell": cells[0], "slab": None, "z0": 11, "variant": "list", "container": "list"})
-    cases.append({"number": number, "choice": choice, "D": N, "sites": reps0[:7], "cell": cells[0], "slab": None, "z0": 5, "variant": "after-exports"})
+    cases.append({"number": number, "choice": choice, "D": N, "sites": reps0[:7], "cell": cells[0], "slab": SLABS[3], "z0": 11, "variant": "list", "container": "list"})
+    cases.append({"number": number, "choice": choice, "D": N, "sites": reps0[:7], "cell": cells[0], "slab": SLABS[5], "z0": 5, "variant": "after-exports"})
     special0 = [o[0] for o in orbs if len(o) < len(ops)][:20]                    # special positions first: that is where merging happens
     special0 += [p for p in reps0[:12] if p not in special0][:7]
     cases.append({"number": number, "choice": choice, "D": N, "sites": special0, "cell": cells[0], "slab": SLABS[0], "z0": 7, "variant": "after-refused-calls"})
